@@ -183,6 +183,39 @@ func c12(r *Report) {
 			r.Decide("path", "M/parse.NewResult: scope \""+side.lit+"\" assigns only the "+side.field+" slot", okAssign, "the store sits on the case for this scope", "the scope switch assigns the wrong slot (a request-scoped node would act on responses)", nr.Pos())
 			r.Decide("path", "M/parse.NewResult: scope \""+side.lit+"\" is rejected for a modifier that is not a "+side.iface, okReject, "the assertion's ok flag is tested before the assignment", "an unsupported scope is accepted silently", nr.Pos())
 		}
+		// the arm that installs both sides without looking at the scope is the
+		// one for an absent scope (nil), not for an empty one: "scope": [] names no
+		// message kind
+		for _, in := range instrs(nr) {
+			st, isSt := in.(*ssa.Store)
+			if !isSt {
+				continue
+			}
+			fa, isFa := st.Addr.(*ssa.FieldAddr)
+			if !isFa || (fieldObj(fa).Name() != "reqmod" && fieldObj(fa).Name() != "resmod") {
+				continue
+			}
+			scoped := false
+			nilArm := false
+			for _, ce := range ctrlEdges(st.Block()) {
+				b, isB := ce.If.Cond.(*ssa.BinOp)
+				if !isB {
+					continue
+				}
+				if _, isC := constString(unwrapConv(b.Y)); isC && b.Op == token.EQL && ce.Taken {
+					scoped = true
+				}
+				if (isNilConst(b.Y) && b.X == ssa.Value(nr.Params[1])) || (isNilConst(b.X) && b.Y == ssa.Value(nr.Params[1])) {
+					if (b.Op == token.EQL) == ce.Taken {
+						nilArm = true
+					}
+				}
+			}
+			if scoped {
+				continue
+			}
+			r.Decide("path", "M/parse.NewResult: "+fieldObj(fa).Name()+" installed without a scope test only when the scope is absent", nilArm, "the store is on the scope == nil edge", "both sides are installed whenever the scope is empty (not only when it is absent): a node whose scope names no message kind acts on requests and responses", st.Pos())
+		}
 		// unknown scope rejected
 		rejects := 0
 		for _, ret := range returns(nr) {
